@@ -33,6 +33,10 @@ Base == [query |-> "Query", mutation |-> "", subscription |-> "",
     [k |-> "object", name |-> "A", ifaces |-> <<"Node">>, fields |-> << Fld("id", Named("ID"), <<>>), Fld("s", Named("String"), <<>>), Fld("old", Named("Int"), <<>>) >>],
     [k |-> "object", name |-> "B", ifaces |-> <<>>, fields |-> << Fld("id", Named("ID"), <<>>), Fld("old", Named("Int"), <<>>) >>],
     [k |-> "union", name |-> "U", members |-> <<"A", "B">>],
+    \* a second union sharing both members (per-union bookkeeping must not leak between unions), and a user type whose name
+    \* starts with ONE underscore (only two are reserved)
+    [k |-> "union", name |-> "U3", members |-> <<"B", "A">>],
+    [k |-> "object", name |-> "_Priv", ifaces |-> <<>>, fields |-> << Fld("p", Named("Int"), <<>>), Fld("q", Named("Int"), <<>>) >>],
     [k |-> "enum", name |-> "E", values |-> << [name |-> "X", dep |-> "", py |-> "Y"], [name |-> "Y", dep |-> "", py |-> "py"] >>],
     \* an enum value deprecated with an EMPTY reason ("EMPTY" is expanded by the harness to the empty string): still deprecated
     [k |-> "enum", name |-> "E2", values |-> << [name |-> "P", dep |-> "EMPTY", py |-> "pp"], [name |-> "Q", dep |-> "", py |-> "pq"] >>],
@@ -59,6 +63,7 @@ InOk(o, n) == IF o.k = "nn" THEN (IF n.k = "nn" THEN InOk(o.of, n.of) ELSE InOk(
 
 TIdx(s, name) == CHOOSE i \in 1..Len(s.types) : s.types[i].name = name
 WithType(s, i, t) == [s EXCEPT !.types[i] = t]
+DropMember(s, m) == [s EXCEPT !.types = [i \in 1..Len(@) |-> IF @[i].k = "union" THEN [@[i] EXCEPT !.members = SelectSeq(@, LAMBDA x : x # m)] ELSE @[i]]]
 FIdx(t, f) == CHOOSE i \in 1..Len(t.fields) : t.fields[i].name = f
 \* An edit is a record [kind, where, new schema, expect (set of acceptable change classes), element, breaking (spec says it must be breaking)]
 ObjTypes(s) == {i \in 1..Len(s.types) : s.types[i].k \in {"object", "interface"}}
@@ -88,7 +93,9 @@ Edits(s) ==
         : j \in 1..2, i \in {TIdx(s, "In")}}
   \cup
   \* remove / add field, argument, enum value, union member, interface implementation, type
-  { [kind |-> "remove-field", el |-> "s", owner |-> "A", new |-> WithType(s, TIdx(s, "A"), [s.types[TIdx(s, "A")] EXCEPT !.fields = SelectSeq(@, LAMBDA f : f.name # "s")]),
+  { [kind |-> "remove-field", el |-> "q", owner |-> "_Priv", new |-> WithType(s, TIdx(s, "_Priv"), [s.types[TIdx(s, "_Priv")] EXCEPT !.fields = SelectSeq(@, LAMBDA f : f.name # "q")]),
+     expect |-> {"FieldRemoved"}, silentOk |-> FALSE, breaking |-> TRUE],
+    [kind |-> "remove-field", el |-> "s", owner |-> "A", new |-> WithType(s, TIdx(s, "A"), [s.types[TIdx(s, "A")] EXCEPT !.fields = SelectSeq(@, LAMBDA f : f.name # "s")]),
      expect |-> {"FieldRemoved"}, silentOk |-> FALSE, breaking |-> TRUE],
     [kind |-> "add-field", el |-> "z", owner |-> "A", new |-> WithType(s, TIdx(s, "A"), [s.types[TIdx(s, "A")] EXCEPT !.fields = Append(@, Fld("z", Named("Int"), <<>>))]),
      expect |-> {"FieldAdded"}, silentOk |-> FALSE, breaking |-> FALSE],
@@ -134,11 +141,11 @@ Edits(s) ==
      expect |-> {"DirectiveArgumentDefaultValueChange"}, silentOk |-> FALSE, breaking |-> FALSE],
     [kind |-> "add-union-member", el |-> "Query", owner |-> "U", new |-> WithType(s, TIdx(s, "U"), [s.types[TIdx(s, "U")] EXCEPT !.members = Append(@, "Query")]),
      expect |-> {"TypeAddedToUnion"}, silentOk |-> FALSE, breaking |-> FALSE],
-    [kind |-> "remove-type", el |-> "B", owner |-> "", new |-> [WithType(s, TIdx(s, "U"), [s.types[TIdx(s, "U")] EXCEPT !.members = Front(@)]) EXCEPT !.types = SelectSeq(@, LAMBDA t : t.name # "B")],
+    [kind |-> "remove-type", el |-> "B", owner |-> "", new |-> [DropMember(s, "B") EXCEPT !.types = SelectSeq(@, LAMBDA t : t.name # "B")],
      expect |-> {"TypeRemoved"}, silentOk |-> FALSE, breaking |-> TRUE],
     [kind |-> "add-type", el |-> "New", owner |-> "", new |-> [s EXCEPT !.types = Append(@, [k |-> "scalar", name |-> "New"])],
      expect |-> {"TypeAdded"}, silentOk |-> FALSE, breaking |-> FALSE],
-    [kind |-> "change-kind", el |-> "B", owner |-> "", new |-> WithType(WithType(s, TIdx(s, "U"), [s.types[TIdx(s, "U")] EXCEPT !.members = Front(@)]), TIdx(s, "B"), [k |-> "interface", name |-> "B", fields |-> << Fld("id", Named("ID"), <<>>) >>]),
+    [kind |-> "change-kind", el |-> "B", owner |-> "", new |-> WithType(DropMember(s, "B"), TIdx(s, "B"), [k |-> "interface", name |-> "B", fields |-> << Fld("id", Named("ID"), <<>>) >>]),
      expect |-> {"TypeChangedKind"}, silentOk |-> FALSE, breaking |-> TRUE],
     [kind |-> "remove-deprecation", el |-> "s", owner |-> "A", new |-> s, expect |-> {}, silentOk |-> TRUE, breaking |-> FALSE],
     [kind |-> "add-directive-location", el |-> "tag", owner |-> "", new |-> [s EXCEPT !.directives[1].locs = <<"FIELD", "QUERY", "MUTATION">>],
@@ -148,7 +155,7 @@ Edits(s) ==
     [kind |-> "identity", el |-> "", owner |-> "", new |-> s, expect |-> {}, silentOk |-> TRUE, breaking |-> FALSE] }
 \* type names an edit touches: two edits are only combined when they touch different types
 Touch(x) == CASE x.kind \in {"add-interface", "remove-interface"} -> {x.el, "Node"}
-              [] x.kind \in {"remove-type", "change-kind", "remove-union-member"} -> {"B", "U"}
+              [] x.kind \in {"remove-type", "change-kind", "remove-union-member"} -> {"B", "U", "U3"}
               [] x.kind = "add-union-member" -> {"U", "Query"}
               [] x.kind = "add-type" -> {"New"}
               [] x.owner \in {"Query.l", "Query.a"} -> {"Query"}
